@@ -10,6 +10,8 @@ import PyamgV.Proofs.ExtC14Energy
 import PyamgV.Proofs.ExtC14Evol
 import PyamgV.Proofs.ExtC14XNoBlock
 import PyamgV.Proofs.ExtC14XSqrt
+import PyamgV.Proofs.ExtC14YEvol
+import PyamgV.Proofs.ExtC14YDefined
 
 /-! # C14 — strength-of-connection matrices obey the common contract and their rules
 
@@ -27,7 +29,7 @@ the public functions (pattern exactly, values to 4 ulp) on every run.  Rows are 
 stored entries: unsorted, duplicated, missing / zero diagonal, empty.  Scalars are rationals
 (exact-field model). -/
 namespace PyamgV.Props.C14
-open PyamgV PyamgV.C14 PyamgV.C14X
+open PyamgV PyamgV.C14 PyamgV.C14X PyamgV.C14Y
 
 /-- classical kernel, both norms, real and complex: the output row is the order-preserving filter
 "diagonal, or `nrm a_ij ≥ θ · maxOff`" of the input row -/
@@ -183,6 +185,98 @@ example : evolFull 1000000 (1/1024) 4 (1/8192) (1/67108864) (1/8192) (1/2) 0 tru
       [[(0, 2), (1, -1)], [(0, -1), (1, 2), (2, -1)], [(1, -1), (2, 4)]]
     = [[(0, 5/16), (1, 1)], [(0, 1/5), (1, 1/16), (2, 1)], [(1, 1), (2, 1/16)]] := by decide +kernel
 example : myInner [(0, 2), (2, 3), (5, 1)] [(1, 7), (2, 1/2), (5, 4)] = 11/2 := by decide +kernel
+
+/-! ### extension E44: the whole of `evolution_strength_of_connection` beyond the E28 model (model `Model/ExtC14YEvol.lean`,
+ops `ext_c14y_*`, compared on every run with the real function in part G: `Atilde` handed to the kernel, the kernel
+`evolution_strength_helper` on its observed input, the strength values at the filter, the returned matrix): several candidate
+vectors (`NullDim > 1`: local constrained least-squares problems solved with the exact Moore-Penrose inverse `C19.Mat.pinv`),
+every `k ≥ 1` (`k = 1`, `k` not a power of two, `k = 2^m`), `epsilon = inf`, both `proj_type`s, BSR input (mask of the same PDE,
+`block_flag`, `tobsr` + `min_blocks`), real and complex scalars (one model over a scalar type read through `Scal`).  The only
+input not recomputed is the spectral-radius estimate. -/
+
+/-- the strength values of the `NullDim == 1` shortcut (any scalar type): inside the row of `Atilde`, non-negative -/
+restate evolution_shortcut_values := PyamgV.C14Y.shortcutRow_spec
+/-- the strength values of `evolution_strength_helper` (`NullDim > 1`), for EVERY candidate matrix `B`: inside the row of
+`Atilde`, **non-negative**; a row with at most `NullDim` entries is all ones -/
+restate evolution_helper_values := PyamgV.C14Y.helperRow_spec
+restate evolution_helper_value_nonneg := PyamgV.C14Y.helperVal_nonneg
+/-- the entry-by-entry rule of the helper: weak when `|zhat/z|² ≤ 1e-8` or the angle exceeds 90 degrees, else the approximation
+error `|1 - zhat/z|` (`1e-4` when below `sqrt(eps)`); the diagonal is `1` -/
+restate evolution_helper_rule := PyamgV.C14Y.helperVal_rule
+/-- both paths, every `B`, `K`: one row per row of `Atilde`, inside its pattern, non-negative -/
+restate evolution_measure_values := PyamgV.C14Y.measureOf_spec
+/-- `Atilde` lives on the mask: stored non-zero entries of `A`, on BSR input of the same PDE; no mask iff `k = 1` on CSR -/
+restate evolution_atilde_on_mask := PyamgV.C14Y.atildeRows_cols
+restate evolution_mask_entries := PyamgV.C14Y.maskRow_mem
+restate evolution_mask_applied_iff := PyamgV.C14Y.masked_iff
+/-- the whole call: the strength values are non-negative and inside the mask -/
+restate evolution_measure_full := PyamgV.C14Y.evMeasureG_spec
+/-- the tail for finite and infinite `epsilon` (CSR) and the nodal tail of BSR input (`min_blocks`: a positive lower bound
+of the block's non-zero entries) -/
+restate evolution_tail_contract_any_epsilon := PyamgV.C14Y.tailO_contract
+restate evolution_tail_contract_bsr := PyamgV.C14Y.tailBsr_contract
+restate min_blocks_lower_bound := PyamgV.C14Y.minBlock_le
+restate min_blocks_positive := PyamgV.C14Y.minBlock_pos
+/-- **the contract of the returned matrix, CSR input, every `B` (any `NullDim`), every `k`, `epsilon` finite or `inf`, both
+`proj_type`s, real or complex**: pattern ⊆ {diagonal} ∪ mask (∪ transposed mask with `symmetrize_measure`), diagonal stored,
+entries in `[0,1]`, row maximum `1` -/
+restate evolution_contract_all_candidates := PyamgV.C14Y.evolFullG_contract
+/-- … in the common form when the mask is applied (`k ≠ 1`): pattern inside the stored pattern of `A` plus the diagonal -/
+restate evolution_contract_in_pattern := PyamgV.C14Y.evolFullG_contract_in_pattern
+/-- **the contract on BSR input** (nodal matrix; `block_flag` on or off) -/
+restate evolution_contract_bsr := PyamgV.C14Y.evolFullBsr_contract
+/-- **the model never fails**: the exact pseudo-inverse of every local problem (and of every diagonal block with
+`block_flag`) exists over a field with a positive definite conjugation -- the rationals and the Gaussian rationals -/
+restate evolution_helper_defined := PyamgV.C14Y.helperRow_isSome
+restate evolution_model_total := PyamgV.C14Y.evolFullG_isSome
+restate evolution_model_total_bsr := PyamgV.C14Y.evolFullBsr_isSome
+restate evolution_model_total_real := PyamgV.C14Y.evolFull_real_defined
+restate evolution_model_total_complex := PyamgV.C14Y.evolFull_complex_defined
+/-- the moduli of the two scalar readings the driver runs are non-negative (hypothesis `hmd` of the contracts) -/
+restate evolution_modulus_real := PyamgV.C14Y.scalQ_md_nonneg
+restate evolution_modulus_complex := PyamgV.C14Y.scalC_md_nonneg
+/-- `k = 1` on CSR input: `Atilde` is the one-step matrix itself and an off-diagonal `(i, j)` comes from a stored non-zero
+`(j, i)` of `A`: the pattern of `A^T` (finding `evolution-k1-transposed-pattern`) -/
+restate evolution_k1_transposed_pattern := PyamgV.C14Y.oneStep_pattern
+restate evolution_k1_no_power := PyamgV.C14Y.powLit_one
+/-- the local solve of the helper is `X · RHS` with `X` the unique Moore-Penrose inverse of the local matrix -/
+restate evolution_helper_solve_is_pinv := PyamgV.C14Y.solveOf_lhs_spec
+/-- time stepping: in every branch (`k = 1`, `k` not a power of two, `k = 2^m`) the dense matrix behind `Atilde` is the `k`-th
+power of the one-step matrix `(I - (1/ρ) D⁻¹A)ᵀ` -/
+restate evolution_time_stepping_power := PyamgV.C14Y.powLit_spec
+restate evolution_one_step_shaped := PyamgV.C14Y.oneStep_shaped
+
+/-! non-vacuity of the E44 model: the 3x3 M-matrix of the E28 examples with two candidates `B = [1, x]`, `k = 3` (not a power
+of two), `epsilon = inf`: row 1 has three entries (more than `NullDim`), the helper gives `23/45` to both neighbours; one
+row of the helper alone; `k = 1`, `epsilon = 2`, symmetrised; a 6x6 BSR matrix with 2x2 blocks (nodal 3x3 result, a
+non-trivial `min_blocks` value); complex input with a complex candidate -/
+example : evMeasureG scalQ ⟨1000000, 1/1024, none, 1/8192, 1/67108864, 1/67108864, 1/8192, 1/4194304, 1/2, 3, false, false, false, 1⟩
+      #[#[1, 0], #[1, 1], #[1, 3]] 2 [[(0, 2), (1, -1)], [(0, -1), (1, 2), (2, -1)], [(1, -1), (2, 4)]]
+    = some [[(0, 1), (1, 1)], [(0, 23/45), (1, 1), (2, 23/45)], [(1, 1), (2, 1)]] := by decide +kernel
+example : evolFullG scalQ ⟨1000000, 1/1024, none, 1/8192, 1/67108864, 1/67108864, 1/8192, 1/4194304, 1/2, 3, false, false, false, 1⟩
+      #[#[1, 0], #[1, 1], #[1, 3]] 2 [[(0, 2), (1, -1)], [(0, -1), (1, 2), (2, -1)], [(1, -1), (2, 4)]]
+    = some [[(0, 1), (1, 1)], [(0, 1), (1, 23/45), (2, 1)], [(1, 1), (2, 1)]] := by decide +kernel
+example : helperRow scalQ ⟨1000000, 1/1024, none, 1/8192, 1/67108864, 1/67108864, 1/8192, 1/4194304, 1/2, 3, false, false, false, 1⟩
+      (fun _ => 1) #[#[1, 0], #[1, 1], #[1, 3]] 2 1 [(0, 1/4), (1, 1/2), (2, 1/8)]
+    = some [(0, 7/5), (1, 1), (2, 7/5)] := by decide +kernel
+example : evolFullG scalQ ⟨1000000, 1/1024, some 2, 1/8192, 1/67108864, 1/67108864, 1/8192, 1/4194304, 1/2, 1, true, false, false, 1⟩
+      #[#[1, 0], #[1, 1], #[1, 3]] 2 [[(0, 2), (1, -1)], [(0, -1), (1, 2), (2, -1)], [(1, -1), (2, 4)]]
+    = some [[(0, 1), (1, 5/6)], [(0, 5/6), (1, 1), (2, 5/6)], [(1, 5/6), (2, 1)]] := by decide +kernel
+example : evolFullBsr scalQ ⟨1000000, 1/1024, none, 1/8192, 1/67108864, 1/67108864, 1/8192, 1/4194304, 1/2, 2, false, false, false, 2⟩
+      #[#[1, 0], #[1, 1], #[1, 2], #[1, 4], #[1, 5], #[1, 7]] 2
+      ⟨6, 6, 2, 2, #[0, 2, 5, 7], #[0, 1, 0, 1, 2, 1, 2],
+        #[4, -1, -1, 4,  -2, 0, -1, -1,  -2, -1, 0, -1,  8, 2, 2, 8,  -1, 0, 0, -3,  -1, 0, 0, -3,  5, 1, 1, 6]⟩
+    = some [[(0, 1), (1, 1)], [(0, 1), (1, 63/130), (2, 56/65)], [(1, 1), (2, 1)]] := by decide +kernel
+example : evolFullBsr scalQ ⟨1000000, 1/1024, none, 1/8192, 1/67108864, 1/67108864, 1/8192, 1/4194304, 1/2, 1, false, false, false, 2⟩
+      #[#[1, 0], #[1, 1], #[1, 2], #[1, 4], #[1, 5], #[1, 7]] 1
+      ⟨6, 6, 2, 2, #[0, 2, 5, 7], #[0, 1, 0, 1, 2, 1, 2],
+        #[4, -1, -1, 4,  -2, 0, -1, -1,  -2, -1, 0, -1,  8, 2, 2, 8,  -1, 0, 0, -3,  -1, 0, 0, -3,  5, 1, 1, 6]⟩
+    = some [[(0, 1), (1, 1/3)], [(0, 1), (1, 1), (2, 1)], [(1, 3/5), (2, 1)]] := by decide +kernel
+example : evolFullG (scalC (sqrtApprox 8)) ⟨1000000, 1/1024, none, 1/8192, 1/67108864, 1/67108864, 1/8192, 1/4194304, 1/2, 2, false, false, false, 1⟩
+      #[#[⟨1, 0⟩, ⟨0, 1⟩], #[⟨1, 0⟩, ⟨1, 0⟩], #[⟨1, 0⟩, ⟨2, -1⟩]] 2
+      [[(0, ⟨2, 0⟩), (1, ⟨0, -1⟩)], [(0, ⟨0, 1⟩), (1, ⟨2, 0⟩), (2, ⟨-1, 0⟩)], [(1, ⟨-1, 0⟩), (2, ⟨4, 0⟩)]]
+    = some [[(0, 1), (1, 1)], [(0, 8192/10085), (1, 1), (2, 4096/10085)], [(1, 1), (2, 1)]] := by decide +kernel
+example : (0 : Rat) < 1/1024 ∧ (1/1024 : Rat) ≤ 1 ∧ (1 : Rat) ≤ 1000000 ∧ (0 : Rat) ≤ 1/8192 := by decide +kernel
 
 /-! non-vacuity: row 0 of `[[4,-1,-2],[…]]` at θ = 1/2 keeps the diagonal and the tie-free strong entry;
 an exact tie (`|-1| = 1/2 · |-2|`) is kept; the public row is `[1, 1/4, 1/2]` -/
